@@ -74,6 +74,22 @@ class LfricInterp(Interp):
                 self.assumptions.append(v >= 1)
         return self.field_ints[k]
 
+    def extern_function(self, nm, args, frame, g):
+        # OpenMP run-time library: one thread's view (thread number arbitrary below the team size)
+        low = nm.lower()
+        if low == "omp_get_max_threads":
+            n = self.fint("omp", "max_threads")
+            if not getattr(self, "_omp_assumed", False):
+                self._omp_assumed = True
+                self.assumptions += [n >= 1, n <= self.K]
+            return n
+        if low == "omp_get_thread_num":
+            n = self.extern_function("omp_get_max_threads", [], frame, g)
+            t = self.fint("omp", "thread_num")
+            self.assumptions += [t >= 0, t < n]
+            return t
+        return super().extern_function(nm, args, frame, g)
+
     # ------------------------------------------------------------ declarations
     def _declare_stmt(self, d, frame, dummies, actuals, top, guard, keyprefix):
         attrs = d.items[1].items if d.items[1] is not None else []
